@@ -68,12 +68,16 @@ def lock_arr_writeability(arr: np.ndarray, force_lock: bool = False) -> np.ndarr
         ):
             # array is natively read-only; don't do anything
             return arr
-        # keeps track of array so we can clean up the array
-        # counter when tracked arrays fall out of scope
-        _array_tracker[arr_id] = ref(arr)
         _array_counter[arr_id] = 1
     else:
         _array_counter[arr_id] += 1
+    # keeps track of array so we can clean up the array
+    # counter when tracked arrays fall out of scope
+    #
+    # This is (re-)asserted on every lock: a finalizer that runs between the
+    # check above and the increment (cyclic garbage collection) can release
+    # what was the array's last other lock and drop this entry
+    _array_tracker[arr_id] = ref(arr)
     if arr.flags.writeable is True:
         arr.flags.writeable = False
     return arr
